@@ -55,8 +55,9 @@ type Ctx struct {
 	Work   string // per-worker scratch directory (exists, empty, removed afterwards)
 	Rep    Report
 	ord    int64
-	mu     sync.Mutex
-	dl     time.Time
+	mu      sync.Mutex
+	dl      time.Time
+	curFile string
 }
 
 // Thorough reports whether the thorough tier was requested.
@@ -133,6 +134,21 @@ func (c *Ctx) Violation(sig, desc string, cs any, obs string) {
 		panic("mcx: case not serialisable: " + err.Error())
 	}
 	c.Rep.Violations = append(c.Rep.Violations, Violation{Sig: sig, Desc: desc, Case: raw, Obs: obs, Ord: c.ord})
+}
+
+// Current records the case about to be executed (drivers whose cases may kill the process call it
+// before every case). When the worker dies, the coordinator turns the last recorded case into a finding.
+func (c *Ctx) Current(sig, desc string, cs any) {
+	if c.curFile == "" {
+		return
+	}
+	raw, err := json.Marshal(cs)
+	if err != nil {
+		return
+	}
+	v := Violation{Sig: sig, Desc: desc, Case: raw, Obs: "process crashed or hung", Ord: c.ord}
+	b, _ := json.Marshal(v)
+	os.WriteFile(c.curFile, b, 0o644)
 }
 
 // Expired tells a driver that its internal budget is used up; it should stop
@@ -249,6 +265,9 @@ func workerMain(d *Driver, tier, worker, out string) {
 	c := newCtx(d.ID, tier, i, n)
 	c.Work = scratch(d.ID, "w"+strconv.Itoa(i))
 	defer os.RemoveAll(c.Work)
+	if d.CrashIsViolation && out != "" {
+		c.curFile = strings.TrimSuffix(out, ".json") + ".current"
+	}
 	b := d.BudgetQuick
 	if tier == "thorough" {
 		b = d.BudgetThorough
@@ -403,6 +422,19 @@ func coordinator(d *Driver, tier string) int {
 	m := newCtx(d.ID, tier, 0, 1).Rep
 	vio := map[string][]Violation{}
 	for i, r := range results {
+		if r.rep == nil && d.CrashIsViolation {
+			cur := filepath.Join(outDir, fmt.Sprintf("w%d.current", i))
+			if raw, err := os.ReadFile(cur); err == nil {
+				var v Violation
+				if json.Unmarshal(raw, &v) == nil && v.Sig != "" {
+					v.Desc += " -- the worker process died while executing this case: " + tailStr(r.tail, 400)
+					vio[v.Sig] = append(vio[v.Sig], v)
+					m.VioCounts[v.Sig]++
+					m.Caps = append(m.Caps, fmt.Sprintf("worker %d died; its remaining cases were not explored", i))
+					continue
+				}
+			}
+		}
 		if r.rep == nil {
 			fmt.Fprintf(os.Stderr, "INFRA: worker %d of %s failed: %v\n%s\n", i, d.ID, r.err, r.tail)
 			return 2
@@ -487,6 +519,9 @@ func coordinator(d *Driver, tier string) int {
 					if strings.HasPrefix(ln, "REPLAY ") {
 						got = json.Unmarshal([]byte(ln[7:]), &ro) == nil
 					}
+				}
+				if !got && d.CrashIsViolation && cand.Obs == "process crashed or hung" {
+					continue // the replay process died as well: reproduced
 				}
 				if !got || ro.Sig != cand.Sig || ro.Obs != cand.Obs {
 					fmt.Fprintf(os.Stderr, "note: replay %d of an example of %q did not reproduce in a fresh process (got sig %q obs %q; recorded obs %q)\n%s\n", k, cand.Sig, ro.Sig, ro.Obs, cand.Obs, tailStr(string(out), 600))
